@@ -4,7 +4,7 @@
 
 namespace ref {
 
-uint8_t gmul(uint8_t a, uint8_t b) {
+static uint8_t gmulSlow(uint8_t a, uint8_t b) {
 	uint8_t p = 0;
 	for (int i = 0; i < 8; ++i) {
 		if (b & 1) p ^= a;
@@ -16,6 +16,13 @@ uint8_t gmul(uint8_t a, uint8_t b) {
 	return p;
 }
 
+uint8_t gmul(uint8_t a, uint8_t b) {
+	static uint8_t T[16][256];
+	static bool init = false;
+	if (!init) { for (int m = 0; m < 16; ++m) for (int x = 0; x < 256; ++x) T[m][x] = gmulSlow((uint8_t)x, (uint8_t)m); init = true; }
+	return b < 16 ? T[b][a] : gmulSlow(a, b);
+}
+
 const AesTables& aesTables() {
 	static AesTables t;
 	static bool init = false;
@@ -23,7 +30,7 @@ const AesTables& aesTables() {
 		for (int x = 0; x < 256; ++x) {
 			// multiplicative inverse (0 -> 0)
 			uint8_t inv = 0;
-			if (x) for (int y = 1; y < 256; ++y) if (gmul((uint8_t)x, (uint8_t)y) == 1) { inv = (uint8_t)y; break; }
+			if (x) for (int y = 1; y < 256; ++y) if (gmulSlow((uint8_t)x, (uint8_t)y) == 1) { inv = (uint8_t)y; break; }
 			// affine transformation: b'_i = b_i ^ b_(i+4) ^ b_(i+5) ^ b_(i+6) ^ b_(i+7) ^ c_i, c = 0x63
 			uint8_t s = 0;
 			for (int i = 0; i < 8; ++i) {
